@@ -14,11 +14,15 @@ CHECK = {'level': 'exploration',
          'same-size role swaps, admin channel edits of 3 roles, grant documents calling access()/role() for users and roles), half of them not '
          'waiting for the cache, against 5 open continuous / long-poll feeds with wildcard and explicit filters; at each of ~8 checkpoints per case '
          'bounded delivery for every open feed plus one-shot requests (since=0 and since=earlier checkpoints, 3 filters, 2 users) judged for '
-         'completeness (incl. back-fill of channels obtained after since) and soundness against the grant model',
+         'completeness (incl. back-fill of channels obtained after since) and soundness against the grant model; rest part: one generated serial '
+         'history of 18-26 admin-API writes per case on a database with channel cache max_length 1/2/3/50 and query pagination limit 2/5/5000, at two '
+         'checkpoints 5 requesters x 5 filters x active_only through GET and POST _changes (rows and last_seq), paged by last_seq with limit 1-3, '
+         'resumed from every row, feed=longpoll, before and after a channel cache flush, plus a parked long-poll and request_plus requests',
  'parts': [{'name': 'cache', 'pkg': 'db', 'run': '^TestVerif_C01_Cache$', 'timeout_q': 600, 'timeout_t': 2400},
            {'name': 'db', 'pkg': 'db', 'run': '^TestVerif_C01_DB$', 'timeout_q': 600, 'timeout_t': 2400, 'env': {'SG_TEST_BUCKET_POOL_SIZE': '12'}},
            {'name': 'feed', 'pkg': 'db', 'race': True, 'run': '^TestVerif_C01_Feed$', 'timeout_q': 600, 'timeout_t': 2400},
-           {'name': 'grants', 'pkg': 'db', 'race': True, 'run': '^TestVerif_C01_Grants$', 'timeout_q': 900, 'timeout_t': 3000}],
+           {'name': 'grants', 'pkg': 'db', 'race': True, 'run': '^TestVerif_C01_Grants$', 'timeout_q': 900, 'timeout_t': 3000},
+           {'name': 'rest', 'pkg': 'rest', 'run': '^TestVerif_C01_Rest$', 'timeout_q': 900, 'timeout_t': 3000}],
  'min_evals': 1000,
  'min_counters': {'cache.enumerated.states_checked_under_lock': 100000,
                   'cache.enumerated.reads_checked': 1000000,
@@ -47,7 +51,15 @@ CHECK = {'level': 'exploration',
                   'grants.oneshot_backfill_obligations': 100,
                   'grants.entries_delivered': 600,
                   'grants.triggered_entries_delivered': 100,
-                  'grants.role_swaps_same_size': 15},
+                  'grants.role_swaps_same_size': 15,
+                  'rest.requests': 5000,
+                  'rest.comparisons': 3000,
+                  'rest.comparisons.paged-by-last_seq': 500,
+                  'rest.comparisons.resume-from-row-sequence': 800,
+                  'rest.comparisons.cold-cache': 300,
+                  'rest.model_obligations': 5000,
+                  'rest.longpolls': 10,
+                  'rest.request_plus_obligations': 30},
  'race_files': ['db/changes.go', 'db/channel_cache.go', 'db/channel_cache_single.go', 'db/change_cache.go', 'db/changes_view.go',
                 'db/change_listener.go', 'channels/log_entry.go'],
  'race_state': ['logs', 'c.logs', 'validFrom', 'c.validFrom', 'cachedDocIDs', 'c.cachedDocIDs', 'highCacheSequence', 'c.highCacheSequence',
@@ -82,7 +94,9 @@ META = {'technique': 'runtime monitoring: exact differential of the real changes
                'under -race with an auditor on the cache locks. Open continuous / long-poll feeds and one-shot requests of users whose admin channels, '
                'admin roles (incl. same-size swaps), role channels and access()/role() grants change while the feeds are open are judged against a '
                'grant model: every open feed must be sent the current revision of everything its user can see now, a continuous feed must not end '
-               'while its request is live, and a one-shot request from an earlier position must back-fill channels obtained since. Exploration: held on the executions produced.',
+               'while its request is live, and a one-shot request from an earlier position must back-fill channels obtained since. At the REST boundary rows and last_seq of GET/POST '
+               '_changes are judged the same way (structure, model, paging by last_seq, resume from every row, cold cache, long-poll, request_plus). Exploration: held on the executions produced.',
  'level_note': 'Trusted: the 60-line document model (winner rule, channels from the body), the model of the channels view used at component level, '
                'rosmar views as the back-fill query. Bounded universe (6 documents, 3 channels, 8 requesters, <= 28 writes). Continuous delivery is '
-               'decided by a state predicate; anything else that does not finish is inconclusive. REST-level rows/last_seq are not covered here.'}
+               'decided by a state predicate; anything else that does not finish is inconclusive. REST level: rows and last_seq of one-shot and long-poll '
+               'requests; continuous and websocket transports of _changes are not driven over HTTP (their feed is the one the db-level parts drive).'}
